@@ -43,6 +43,10 @@ class FlushError(Exception):
     pass
 
 
+class AbortError(BaseException):
+    """user error token 3: derives from BaseException only (asynq treats it like any other task failure)"""
+
+
 class Harness(object):
     def __init__(self, cfg):
         import asynq
@@ -106,6 +110,8 @@ class Harness(object):
 
             def get_priority(self):
                 p = H.kcfg(self.kind).get("prio", "default")
+                if H.cfg.get("intprio") and p != "default" and p != "rev":
+                    return p[1] - 2        # plain ints, 0 (falsy) among them; same order as the model's (p, 0)
                 if p == "default":
                     return (0, len(self.items))
                 if p == "rev":
@@ -165,7 +171,7 @@ class Harness(object):
     def get_err(self, n):
         e = self.err.get(n)
         if e is None:
-            e = self.err[n] = UserError("user error %d" % n)
+            e = self.err[n] = (AbortError if n == 3 else UserError)("user error %d" % n)
             self.err_tok[id(e)] = ["u", n]
         return e
 
@@ -217,7 +223,7 @@ class Harness(object):
     def outcome_of(self, f):
         try:
             v = f.value()
-        except Exception as e:
+        except BaseException as e:
             return ["err", self.etok(e)]
         return ["ok", self.vtok(v)]
 
@@ -417,7 +423,9 @@ class Harness(object):
                 self.emit(["yield", me, st["resumes"], ry])
                 try:
                     v = yield y
-                except Exception as e:
+                except GeneratorExit:
+                    raise
+                except BaseException as e:
                     recv = ["err", self.etok(e)]
                     st["caught"] = e
                     body = hh
@@ -434,7 +442,9 @@ class Harness(object):
                 self.emit(["syncE", me, self.fid(t)])
                 try:
                     v = t.value()
-                except Exception as e:
+                except GeneratorExit:
+                    raise
+                except BaseException as e:
                     self.emit(["syncX", me, self.fid(t), ["err", self.etok(e)]])
                     st["caught"] = e
                     body = body[4]
@@ -447,7 +457,9 @@ class Harness(object):
                 self.emit(["syncE", me, self.fid(f)])
                 try:
                     v = f.value()
-                except Exception as e:
+                except GeneratorExit:
+                    raise
+                except BaseException as e:
                     self.emit(["syncX", me, self.fid(f), ["err", self.etok(e)]])
                     st["caught"] = e
                     body = body[3]
@@ -488,7 +500,9 @@ class Harness(object):
                 me[0] = self.reg(t, "task")
                 v = t.value()
             out = ["ok", self.vtok(v)]
-        except Exception as e:
+        except BaseException as e:
+            if type(e).__name__ == "CaseTimeout":
+                raise
             out = ["err", self.etok(e)]
         self.emit(["ret", out])
         sched2 = asynq.scheduler.get_scheduler()
@@ -499,11 +513,18 @@ class Harness(object):
         self.emit(["svals"] + [[k, self.vtok(sv.get())] for k, sv in sorted(self.sv.items())])
 
 
+def prio_pair(b):
+    p = b.get_priority()
+    if isinstance(p, int):
+        return [p + 2, 0]
+    return list(p)
+
+
 def pending_snapshot(H, sched, chosen):
     res = []
     for b in sched._batches:
         if hasattr(b, "kind"):
-            res.append([b.kind, b.seq, len(b.items), 1 if b.is_flushed() else 0, list(b.get_priority())])
+            res.append([b.kind, b.seq, len(b.items), 1 if b.is_flushed() else 0, prio_pair(b)])
     res.sort()
     return res
 
@@ -519,7 +540,7 @@ def run_program(case):
 
     def before(batch):
         H.emit(["flushB", [getattr(batch, "kind", "?"), getattr(batch, "seq", "?")],
-                [H.fid(i) for i in batch.items], list(batch.get_priority()), pending_snapshot(H, sched, batch)])
+                [H.fid(i) for i in batch.items], prio_pair(batch), pending_snapshot(H, sched, batch)])
 
     def after(batch):
         H.emit(["flushE", [getattr(batch, "kind", "?"), getattr(batch, "seq", "?")]])
